@@ -35,9 +35,11 @@ LEVEL = "exploration"
 RULE = (
     "one case = one seeded hostile session: server configuration (root_client_path, user-directory expansion table, medium flavour) x 25-70 requests "
     "(verb from the whole request registry, protocol version, path arguments from the hostile grammar aimed at /secret and /served-evil, bodies) x RemoteTransport "
-    "clone probes x in-request ControlDir.open probes x seeded segmentation; every request is judged at the storage seam below the chroot; non-trivial = at least 10 "
+    "clone probes x in-request ControlDir.open probes x (45% of the runs) a two-connection phase: two client actors, each owning a connection whose server side runs in "
+    "that actor's thread (the TCP server's thread per connection), pre-empted by the seeded scheduler at every store operation, sending jail probes (in-jail store "
+    "work, then an out-of-jail ControlDir.open) and requests x seeded segmentation; every request is judged at the storage seam below the chroot; non-trivial = at least 10 "
     "requests reached path translation with a hostile path and at least one of them was refused or contained; distinct = distinct event-log digests. "
-    "LEAST SCHEDULE-DEPENDENT CLAIMED CHECK: fault kind = hostile peer, no crash/interleaving dimension."
+    "LEAST SCHEDULE-DEPENDENT CLAIMED CHECK: fault kind = hostile peer; the only schedule dimension is the interleaving of the two server threads in the two-connection phase."
 )
 COMPONENTS = {
     "real": [
@@ -48,7 +50,7 @@ COMPONENTS = {
         "server media (pipe/socket) and protocol v1/v2/v3 decoders/encoders; client _SmartClient; breezy.transport.remote.RemoteTransport (clone, _remote_path) for the clone probes",
         "the memory transport's own path resolution below the chroot (unescaping, '..')",
     ],
-    "simulated": ["the disk below the chroot (SimTransport: every operation is seen by a monitor; moving a directory into itself is refused like EINVAL - the in-memory store would not terminate)", "the connection (SimPipe segmentation)"],
+    "simulated": ["thread scheduling of the per-connection server threads in the two-connection phase (seeded pre-emption at every store operation)", "the disk below the chroot (SimTransport: every operation is seen by a monitor; moving a directory into itself is refused like EINVAL - the in-memory store would not terminate)", "the connection (SimPipe segmentation)"],
     "stub": [
         "the hostile client: hand-built requests through _SmartClient.call / call_with_body_bytes / call_with_body_stream",
         "user database: BzrServerFactory(userdir_expander=table lookup, get_base_path=fixed '/srv/served/') - the factory's own constructor seams (an in-memory store has no local path)",
@@ -225,11 +227,31 @@ def generate(rng, tier):
     clones = []
     for _ in range(rng.randint(0, 4)):
         clones.append({"clone": rng.choice(["..", "../secret", "../../secret", "%2e%2e/secret", "..%2Fsecret", "/secret", "../served-evil", "br/../../secret", "~evil", "//secret", "../secret/br"]), "op": rng.choice(["has", "get", "list_dir", "open", "stat", "put", "mkdir"]), "name": rng.choice(["marker.txt", ".", "br", "x"])})
+    two = None
+    if rng.random() < 0.45:
+        # two connections served at the same time: each client actor owns a connection whose
+        # server side runs in that actor's thread (the TCP server's thread per connection)
+        del reqs[rng.randint(8, 25) :]
+        two = {}
+        opening = [v for v in verbs if v.startswith(("BzrDir.", "Branch.", "Repository."))]
+        for name in ("c1", "c2"):
+            items = []
+            for _ in range(rng.randint(4, 10)):
+                x = rng.random()
+                if x < 0.45:
+                    items.append({"probe": rng.choice(["secret_url", "secret_url", "served_url", "store_root", "backing_clone", "backing_dotdot"]), "work": rng.randint(1, 6)})
+                else:
+                    r = gen_request(rng, vfs if x < 0.7 else opening, rcp)
+                    if rng.random() < 0.6:
+                        r["paths"] = [(rcp or "/") + rng.choice(["br", "br", "readme.txt", "sub", ""]) for _ in r["paths"]]
+                    items.append({"req": r})
+            two[name] = items
     return {
         "rcp": rcp,
         "userdirs": userdirs,
         "reqs": reqs,
         "clones": clones,
+        "two": two,
         "probes": rng.sample(["secret_url", "served_url", "backing_clone", "backing_dotdot", "backing_encoded", "store_root"], rng.randint(1, 4)),
         "server": rng.choice(["pipe", "socket"]),
         "seg": {"m": rng.choice(["whole", "whole", "hot", "rand"]), "ph": 0.3, "sh": rng.random() < 0.4, "s": rng.randrange(1 << 30)},
@@ -250,6 +272,18 @@ def shrink_candidates(plan):
                 del p[key][i : i + step]
                 if key == "probes" and not p[key] and not p["reqs"] and not p["clones"]:
                     continue
+                yield p
+            if step == 1:
+                break
+            step //= 2
+    for name in sorted(plan.get("two") or {}):
+        items = plan["two"][name]
+        n = len(items)
+        step = max(1, n // 2)
+        while n and step >= 1:
+            for i in range(0, n, step):
+                p = copy.deepcopy(plan)
+                del p["two"][name][i : i + step]
                 yield p
             if step == 1:
                 break
@@ -852,9 +886,6 @@ def _session(sim, plan, url, t, factory, outside0):
             blob = b""  # the public branch's own revision id
         judge(label, "in-request-open", "encoded-slash" if which == "backing_encoded" else which, blob)
 
-    for which in plan.get("probes", []):
-        run_probe(which)
-
     # ---- two connections served concurrently (one server thread per connection) --------------------
     two = plan.get("two")
     if two:
@@ -883,6 +914,10 @@ def _session(sim, plan, url, t, factory, outside0):
                 raise a.exc
         sim.probe("two_connection_sessions")
         sim.probe("two_connection_switches", sim.switches)
+
+    # single-connection probes last: `backing_encoded` is an open finding and ends the run
+    for which in sorted(plan.get("probes", []), key=lambda w: w == "backing_encoded"):
+        run_probe(which)
 
     # ---- end of session --------------------------------------------------------------------------
     now = ground.outside_snapshot()
